@@ -6,7 +6,8 @@
    X lint | doc | lint | doc -> S (same context: lint 2 is ignored after ignoring lint 1), D, or P (panic)
    J cps                     -> import of that JSON text into an empty list: sorted hashes, or E
    H docs # lints # ops      -> history on one IgnoredLints: i l d (ignore), q l d (is_ignored -> y/n),
-        r d l.. (remove_ignored -> [k-..]), x / f (export + import into the same / a fresh list), c (clear), n (size) *)
+        r d l.. (remove_ignored -> [k-..]), x / f (export + import into the same / a fresh list), c (clear), n (size),
+        s (switch to the second list), m (export the OTHER list, import that text into the current one) *)
 let split c s = List.map String.trim (String.split_on_char c s)
 let ints s = ints_of_line s
 let nats s = List.map nat_of_int (ints s)
@@ -105,6 +106,7 @@ let () =
                let lints = Array.of_list (List.map parse_lint (List.filter (fun s -> s <> "") (split '|' lints_part))) in
                table := []; next := 0;
                let st = ref [] in
+               let other = ref [] in
                let out = Buffer.create 64 in
                let panic = ref false in
                List.iter (fun op ->
@@ -133,6 +135,10 @@ let () =
                  | ["f"] ->          (* export, import into a fresh list *)
                      (match run_import (run_export !st) with
                       | Some s -> st := ig_append [] s | None -> Buffer.add_string out "E")
+                 | ["s"] -> let t = !st in st := !other; other := t
+                 | ["m"] ->          (* export the other list, import into the current one *)
+                     (match run_import (run_export !other) with
+                      | Some s -> st := ig_append !st s | None -> Buffer.add_string out "E")
                  | ["c"] -> st := []
                  | ["n"] -> Buffer.add_string out (string_of_int (List.length !st))
                  | [] -> ()
